@@ -25,6 +25,31 @@ KIND = {
 CLASS_OF = {v: k for k, v in KIND.items()}
 
 
+def big_digits(v):
+    """exact decimal digits of an int beyond TLC's range, or the shortest round-trip decimal of a float:
+    {dg: digits (most significant first), sc: decimal scale, sg: sign} meaning sg * dg / 10^sc."""
+    from decimal import Decimal
+    try:
+        import numpy as np
+        if isinstance(v, np.generic):
+            v = v.item()
+    except Exception:  # pragma: no cover
+        pass
+    if isinstance(v, int):
+        return {"dg": [int(c) for c in str(abs(v))], "sc": 0, "sg": -1 if v < 0 else 1}
+    t = Decimal(repr(float(v))).as_tuple()
+    digits = list(t.digits)
+    if t.exponent > 0:
+        digits += [0] * t.exponent
+        sc = 0
+    else:
+        sc = -t.exponent
+    return {"dg": digits, "sc": sc, "sg": -1 if t.sign else 1}
+
+
+NOBIG = {"dg": [0], "sc": 0, "sg": 1}
+
+
 def kind_of(node):
     return KIND.get(type(node), "other")
 
@@ -77,7 +102,7 @@ def const_ratio(v):
         q = simplest_between(f - 4 * ulp, f + 4 * ulp)
         if q.denominator <= 1000 and abs(q) <= 10 ** 4:
             return q.numerator, q.denominator, "float"
-        return 0, 0, "inexact"
+        return 0, 0, "repr"
     if v is None:
         return 0, 0, "none"
     return 0, 0, "weird"
@@ -131,7 +156,7 @@ def snapshot(objs, roots=(), payload=True):
     n = len(objs)
     h = {"n": n, "l": [], "r": [], "p": []}
     if payload:
-        h.update({"kind": [], "num": [], "den": [], "ex": [], "vid": [], "nid": [], "side": []})
+        h.update({"kind": [], "num": [], "den": [], "ex": [], "vid": [], "nid": [], "side": [], "big": []})
     for o in objs.keep:
         h["l"].append(objs.of(o.left) if o.left is None or _is_node(o.left) else 0)
         h["r"].append(objs.of(o.right) if o.right is None or _is_node(o.right) else 0)
@@ -146,10 +171,20 @@ def snapshot(objs, roots=(), payload=True):
             h["num"].append(a)
             h["den"].append(b)
             h["ex"].append(e)
-            h["vid"].append(o.identifier if k == "v" and isinstance(getattr(o, "identifier", None), str) else "")
+            h["big"].append(big_digits(o.value) if e in ("big", "repr") else NOBIG)
+            h["vid"].append(var_code(o) if k == "v" else 0)
             h["nid"].append(str(getattr(o, "id", "")))
             h["side"].append(("L" if o.child_on_left else "R") if isinstance(o, UnaryExpression) else "-")
     return h
+
+
+def var_code(o):
+    """variables are projected as the code point of their (single-letter) identifier; 0 = none/odd"""
+    ident = getattr(o, "identifier", None)
+    if isinstance(ident, str) and len(ident) >= 1:
+        c = ord(ident[0])
+        return c if len(ident) == 1 else c + 1000 * len(ident)
+    return 0
 
 
 def term(node, depth=0):
@@ -159,9 +194,13 @@ def term(node, depth=0):
     k = kind_of(node)
     if k == "c":
         a, b, e = const_ratio(node.value)
+        if e in ("big", "repr"):
+            d = {"k": "c", "n": 0, "d": 0}
+            d.update(big_digits(node.value))
+            return d
         return {"k": "c", "n": a, "d": b}
     if k == "v":
-        return {"k": "v", "id": node.identifier if isinstance(node.identifier, str) else ""}
+        return {"k": "v", "id": var_code(node)}
     if k in ("neg", "fact", "sgn", "abs"):
         c = node.left if node.left is not None else node.right
         return {"k": k, "c": term(c, depth + 1)}
